@@ -30,7 +30,7 @@ func c16Model() c16Table {
 		// several names are used in both files, with the larger share sometimes in
 		// the root and sometimes in the included file: a total that is not the sum
 		// over the files changes the order
-		Accounts:    map[string]int{"expenses:food": 4, "expenses:fuel": 2, "assets:cash": 4, "Assets:Bank account": 3, "расходы:еда": 1, "equity:opening": 1},
+		Accounts: map[string]int{"expenses:food": 4, "expenses:fuel": 2, "assets:cash": 4, "Assets:Bank account": 3, "расходы:еда": 1, "equity:opening": 1},
 		// "Cafe" is partly written as "Cafe | note"; "Bar (West) End" has a bracket in its name
 		Payees:      map[string]int{"shop": 4, "shopping mall": 1, "Cafe": 3, "Åke": 2, "Bar (West) End": 1},
 		Commodities: map[string]int{"EUR": 3, "USD": 4, "$": 1},
